@@ -25,6 +25,10 @@ def gen_cases(ctx):
     for case in itertools.chain(c01.g3(ctx), c01.g2(ctx)):
         if case['disp'] == 'sync':
             k = (case['mbs'], case['text'])
+            if case['text'].count('[') + case['text'].count('{') > 400:
+                # nesting near the interpreter's recursion limits: where exactly the loader gives up depends on the number of
+                # stack frames below it, which legitimately differs between the two dispatchers (C01 / C03 cover these texts)
+                continue
             if k not in seen:
                 seen.add(k)
                 yield dict(part='text', table='c01', mbs=case['mbs'], text=case['text'])
